@@ -193,6 +193,13 @@ example : typeInstr false (.seq [.SHA512, .SHA3, .CAST .bytes, .TOTAL_VOTING_POW
     = some (.ok [.nat, .nat, .bytes]) := by rfl
 example : typeInstr false (.CAST .int) [.nat] = none := by rfl
 
+-- extension 2, phase A: conversions, NEVER (typed like FAILWITH: only in tail position), VOTING_POWER, HASH_KEY
+example : typeInstr false (.seq [.BYTES, .DUP, .NAT, .SWAP, .INT, .BYTES]) [.int] = some (.ok [.bytes, .nat]) := by rfl
+example : typeInstr false (.seq [.HASH_KEY, .VOTING_POWER]) [.key] = some (.ok [.nat]) := by rfl
+example : typeInstr false .NEVER [.never, .int] = some .failed := by rfl
+example : typeInstr false (.seq [.NEVER, .UNIT]) [.never] = none := by rfl
+example : typeInstr false .BYTES [.mutez] = none := by rfl
+
 -- non-vacuity of `type_soundness` / `welltyped_run_preserves_types`: the hypotheses hold for MAP { CDR } over the map above
 example : ∀ v ∈ [mPair], litOk v = true := by simp [mPair, litOk, litOks, simpleComparable]
 example : literalsOk (.MAP .CDR) = true := by rfl
